@@ -85,6 +85,7 @@ type HarnessDef struct {
 	Stubs    map[string]string `json:"stubs,omitempty"`
 	Summaries map[string][]int `json:"summaries,omitempty"`
 	Noop     []string          `json:"noop,omitempty"`
+	NoopFuncs []string         `json:"noop_funcs,omitempty"`
 	NoReplay bool              `json:"no_replay,omitempty"`
 	Expect   string            `json:"expect,omitempty"` // "violation" for reachability twins
 	Bounds   string            `json:"bounds"`           // human-readable statement of the bound
